@@ -60,7 +60,7 @@ func (conn *Conn) close() {
 
 	/* call FidDestroy for all remaining fids; requests that are still
 	 * executing can change the table, so work on a copy */
-	if op, ok := (conn.Srv.ops).(SrvFidOps); ok {
+	if _, ok := (conn.Srv.ops).(SrvFidOps); ok {
 		conn.Lock()
 		fids := make([]*SrvFid, 0, len(conn.fidpool))
 		for _, fid := range conn.fidpool {
@@ -68,7 +68,7 @@ func (conn *Conn) close() {
 		}
 		conn.Unlock()
 		for _, fid := range fids {
-			op.FidDestroy(fid)
+			fid.destroy()
 		}
 	}
 	verifPoint("close.exit", conn)
